@@ -16,9 +16,6 @@ structure LogonFrame (f : Msg) (ev hv : String) : Prop where
   lev : isLatin1 ev = true
   lhv : isLatin1 hv = true
 
-theorem allLt_push {k : Int} {m : Msg} {rs : Rows} (h : AllLt k rs) : AllLt (k + 1) (rs ++ [(k, m)]) :=
-  allLt_append_last h (by omega)
-
 /-- acceptor, Logon numbered as expected on a fresh transport: Logon reply, ACTIVE -/
 theorem recv_logon_conn_eq {s : Side} {env : Env} {c : Conn} {f : Msg} {n : Int} {ev hv : String}
     (hc : ConnGood s c) (hi : InFrame c f n) (hf : LogonFrame f ev hv) (hl3 : isLatin1 env.stamp = true)
